@@ -12,7 +12,7 @@
    in order, one posting per line of r (inst_post: the line's account and kind, the multiplied
    or fixed amount, flagged generated).  cp = the pool's display precision; ord = the
    unspecified hash-table insertion order of balances. *)
-From LedgerV Require Import Base.Prelude Base.Round Model.Amount Model.Xact Model.AutoXact
+From LedgerV Require Import Base.Prelude Base.Round Gen.AutoXactRoot Model.Amount Model.Xact Model.AutoXact
   Proofs.AmountProofs Proofs.XactProofs Proofs.AutoXactProofs.
 From Coq Require Import Qabs.
 Local Open Scope Q_scope.
@@ -46,32 +46,33 @@ Proof. exact candidates_app_generated. Qed.
 Print Assumptions generated_postings_never_candidates.
 
 (* only_later: the transactions before a rule are what they are without it *)
-Theorem only_later : forall ord pl ds1 r ds2,
-  firstn (length (process ord pl [] ds1)) (process ord pl [] (ds1 ++ DRule r :: ds2)) = process ord pl [] ds1.
+Theorem only_later : forall ord pl al ds1 r ds2,
+  firstn (length (process ord pl al [] ds1)) (process ord pl al [] (ds1 ++ DRule r :: ds2)) = process ord pl al [] ds1.
 Proof. exact only_later_stateful. Qed.
 Print Assumptions only_later.
 
 (* a transaction sees exactly the rules written before it, in file order *)
-Theorem rules_before_only : forall ord pl rules ds1 t ds2,
-  nth_error (process_pure ord pl rules (ds1 ++ DTxn t :: ds2)) (length (process_pure ord pl rules ds1)) =
-  Some (txn_result ord (pool_after pl ds1) (rules ++ rules_in ds1) t).
+Theorem rules_before_only : forall ord pl al rules ds1 t ds2,
+  nth_error (process_pure ord pl al rules (ds1 ++ DTxn t :: ds2)) (length (process_pure ord pl al rules ds1)) =
+  Some (txn_result ord (pool_after pl ds1) (aliases_after al ds1) (rules ++ rules_in ds1) t).
 Proof. exact txn_sees_rules_before. Qed.
 Print Assumptions rules_before_only.
 
 (* the property for a whole journal *)
-Theorem journal_extension : forall ord pl ds1 t ds2 xs,
+Theorem journal_extension : forall ord pl al ds1 t ds2 xs,
   let cp := cp_of (learn_posts (pool_after pl ds1) (t_posts t)) in
-  nth_error (process ord pl [] (ds1 ++ DTxn t :: ds2)) (length (process ord pl [] ds1)) = Some (Ok (XAccepted xs)) ->
+  let al' := aliases_after al ds1 in
+  nth_error (process ord pl al [] (ds1 ++ DTxn t :: ds2)) (length (process ord pl al [] ds1)) = Some (Ok (XAccepted xs)) ->
   exists ps, finalize ord cp None (t_posts t) = Ok (Accepted ps) /\
     let base := lift (t_state t) (map (annotate_cost cp) ps) in
-    xs = base ++ flat_map (fun r => contribution cp (t_state t) r (t_payee t) base) (rules_in ds1).
+    xs = base ++ flat_map (fun r => contribution cp (t_state t) (realias_rule al' r) (t_payee t) base) (rules_in ds1).
 Proof. exact journal_extension_spec. Qed.
 Print Assumptions journal_extension.
 
-Theorem no_rule_before_means_untouched : forall ord pl ds1 t ds2 xs,
+Theorem no_rule_before_means_untouched : forall ord pl al ds1 t ds2 xs,
   let cp := cp_of (learn_posts (pool_after pl ds1) (t_posts t)) in
   rules_in ds1 = [] ->
-  nth_error (process ord pl [] (ds1 ++ DTxn t :: ds2)) (length (process ord pl [] ds1)) = Some (Ok (XAccepted xs)) ->
+  nth_error (process ord pl al [] (ds1 ++ DTxn t :: ds2)) (length (process ord pl al [] ds1)) = Some (Ok (XAccepted xs)) ->
   exists ps, finalize ord cp None (t_posts t) = Ok (Accepted ps) /\ xs = lift (t_state t) (map (annotate_cost cp) ps).
 Proof. exact no_rule_before_untouched. Qed.
 Print Assumptions no_rule_before_means_untouched.
@@ -122,8 +123,8 @@ Proof. exact quick_eval_acct_only. Qed.
 Print Assumptions quick_match_by_account_name.
 
 (* the memo and the quick path never change any result of the journal *)
-Theorem memo_transparent : forall ord ds pl rules,
-  rules_ok rules -> process ord pl rules ds = process_pure ord pl (map fst rules) ds.
+Theorem memo_transparent : forall ord ds pl al rules,
+  rules_ok rules -> process ord pl al rules ds = process_pure ord pl al (map fst rules) ds.
 Proof. exact process_eq_pure. Qed.
 Print Assumptions memo_transparent.
 
@@ -226,8 +227,8 @@ Example virtual_line_last_still_rejected :
   let t := mkTxn [120; 49]%Z SUncleared
                  [mkPost [69; 120; 112]%Z PReal (Some (mkAmt 100 2%Z false eur)) None None false false false;
                   mkPost [67%Z] PReal (Some (mkAmt (-100) 2%Z false eur)) None None false false false] in
-  process false [] [] [DRule (mkRule (PAcct [69; 120]%Z) [tax; bud]); DTxn t] = [Err EUnbalanced] /\
-  process false [] [] [DRule (mkRule (PAcct [69; 120]%Z) [bud; tax]); DTxn t] = [Err EUnbalanced].
+  process false [] [] [] [DRule (mkRule (PAcct [69; 120]%Z) [tax; bud]); DTxn t] = [Err EUnbalanced] /\
+  process false [] [] [] [DRule (mkRule (PAcct [69; 120]%Z) [bud; tax]); DTxn t] = [Err EUnbalanced].
 Proof. cbv zeta. split; vm_compute; reflexivity. Qed.
 
 Theorem virtual_lines_never_checked : forall ord cp r payee st ps new,
@@ -254,11 +255,11 @@ Example extension_example :
                  [mkPost food PReal (Some (mkAmt 10 2%Z false usd)) None None false false false;
                   mkPost cash PReal (Some (mkAmt (-10) 2%Z false usd)) None None false false false] in
   let gen a k (q : Q) (p : Z) := mkX (mkPost a k (Some (mkAmt q p false usd)) None None false true false) SUncleared in
-  process false [] [] [DRule r; DTxn t] =
+  process false [] [] [] [DRule r; DTxn t] =
     [Ok (XAccepted (lift SUncleared (t_posts t) ++
                     [gen [66%Z] PVirtual (-10) 2%Z; gen [84%Z] PReal 1 4%Z; gen [83%Z] PReal (-1) 4%Z]))] /\
-  process false [] [] [DTxn t; DRule r] = [Ok (XAccepted (lift SUncleared (t_posts t)))] /\
-  process false [] [] [DRule bad; DTxn t] = [Err EUnbalanced].
+  process false [] [] [] [DTxn t; DRule r] = [Ok (XAccepted (lift SUncleared (t_posts t)))] /\
+  process false [] [] [] [DRule bad; DTxn t] = [Err EUnbalanced].
 Proof. cbv zeta. repeat split; vm_compute; reflexivity. Qed.
 
 (* the full statement for a journal: EVERY posting of the finalized transaction - written, or
@@ -266,13 +267,15 @@ Proof. cbv zeta. repeat split; vm_compute; reflexivity. Qed.
    written before it receives one posting per rule line.  (F33, repaired by /repo e69e5ce: the
    old code skipped every ITEM_GENERATED posting, so `= /C/ (B) 1` before
    `F $10.00 / F 5.00 EUR / C` gave (B) $-10.00 only.) *)
-Theorem journal_extension_every_posting : forall ord pl ds1 t ds2 xs,
+Theorem journal_extension_every_posting : forall ord pl al ds1 t ds2 xs,
   let cp := cp_of (learn_posts (pool_after pl ds1) (t_posts t)) in
+  let al' := aliases_after al ds1 in
   (forall p, In p (t_posts t) -> p_generated p = false) ->
-  nth_error (process ord pl [] (ds1 ++ DTxn t :: ds2)) (length (process ord pl [] ds1)) = Some (Ok (XAccepted xs)) ->
+  nth_error (process ord pl al [] (ds1 ++ DTxn t :: ds2)) (length (process ord pl al [] ds1)) = Some (Ok (XAccepted xs)) ->
   exists ps, finalize ord cp None (t_posts t) = Ok (Accepted ps) /\
     let base := lift (t_state t) (map (annotate_cost cp) ps) in
-    xs = base ++ flat_map (fun r => flat_map (fun x => map (inst_post cp (t_state t) (x_post x)) (r_lines r))
+    xs = base ++ flat_map (fun r => flat_map (fun x => map (inst_post cp (t_state t) (x_post x))
+                                                            (map (realias_line al') (r_lines r)))
                                              (filter (matchesb r (t_payee t)) base)) (rules_in ds1).
 Proof. exact AutoXactProofs.journal_extension_every_posting. Qed.
 Print Assumptions journal_extension_every_posting.
@@ -293,6 +296,68 @@ Example elided_two_commodities_both_matched :
                   mkPost [70%Z] PReal (Some (mkAmt 5 2%Z false eur)) None None false false false;
                   mkPost [67%Z] PReal None None None false false false] in
   let gen c (q : Q) := mkX (mkPost [66%Z] PVirtual (Some (mkAmt q 2%Z false c)) None None false true false) SUncleared in
-  exists base, process false [] [] [DRule r; DTxn t] = [Ok (XAccepted (base ++ [gen usd (-10); gen eur (-5)]))] /\
+  exists base, process false [] [] [] [DRule r; DTxn t] = [Ok (XAccepted (base ++ [gen usd (-10); gen eur (-5)]))] /\
                length base = 4%nat.
 Proof. cbv zeta. eexists (_ :: _ :: _ :: _ :: nil). split; vm_compute; reflexivity. Qed.
+
+(* ---- the account of a generated posting.
+   Postings and rule lines reach the model with the full account name they resolve to AT THEIR
+   PLACE in the file (master account, enclosing `apply account`, one step of aliases).  That the
+   lines of a rule are resolved against the same root as the postings of a transaction at that
+   place is a fact read from the source on every run (harness/translators/c16_autoxact_root.py):
+   automated_xact_directive hands top_account() to parse_post, as xact_directive does. *)
+Theorem rule_lines_resolve_like_postings :
+  src_autoxact_line_root = RootTopAccount /\ src_xact_post_root = RootTopAccount.
+Proof. split; reflexivity. Qed.
+Print Assumptions rule_lines_resolve_like_postings.
+
+(* the model's second alias round is the code's: extend_xact registers the line's account again
+   by its full name from the journal root *)
+Theorem extend_registers_by_full_name : src_extend_registers_fullname_from_master = true.
+Proof. reflexivity. Qed.
+Print Assumptions extend_registers_by_full_name.
+
+(* a generated posting has its rule line's kind and the line's account run once more through
+   the aliases in force at the transaction *)
+Theorem generated_posting_account : forall cp st r payee ps al x,
+  In x (contribution cp st (realias_rule al r) payee ps) ->
+  exists l, In l (r_lines r) /\ p_acct (x_post x) = realias al (rl_acct l) /\ p_kind (x_post x) = rl_kind l.
+Proof. exact generated_account. Qed.
+Print Assumptions generated_posting_account.
+
+(* ... which is the rule line's account whenever neither that name nor its first component is an
+   alias (in particular in a journal without aliases) *)
+Theorem account_kept_without_alias_hit : forall al full,
+  alias_find full al = None ->
+  (forall first rest, split_colon full = Some (first, rest) -> alias_find first al = None) ->
+  realias al full = full.
+Proof. exact realias_no_hit. Qed.
+Print Assumptions account_kept_without_alias_hit.
+
+Theorem no_aliases_rule_unchanged : forall r, realias_rule [] r = r.
+Proof. exact realias_rule_nil. Qed.
+Print Assumptions no_aliases_rule_unchanged.
+
+(* FINDING F120 (known_findings.txt).  "The generated posting has the rule line's account" is false
+   of the faithful model when an alias names the first component of the account the line resolved
+   to: `alias Tax=Liabilities:Tax`, `alias Liabilities=Debt:L`, rule line `(Tax:Fed) 1`.  At its
+   place the line names Liabilities:Tax:Fed (one alias step, like the ordinary posting `Tax:Fed`),
+   but the generated posting goes to Debt:L:Tax:Fed; likewise an alias defined AFTER the rule
+   redirects the rule's postings. *)
+Theorem generated_posting_has_line_account_refuted :
+  exists ds r t xs x,
+    ds = [DAlias [84%Z] [76; 58; 84]%Z; DAlias [76%Z] [68; 58; 76]%Z; DRule r; DTxn t] /\
+    process false [] [] [] ds = [Ok (XAccepted xs)] /\
+    In x xs /\ rule_made (x_post x) = true /\
+    ~ In (p_acct (x_post x)) (map rl_acct (r_lines r)).
+Proof.
+  pose (r := mkRule (PAcct [70%Z]) [mkLine [76; 58; 84; 58; 70]%Z PVirtual (Some (mkAmt 1 0%Z false None)) SUncleared]).
+  pose (t := mkTxn [120; 49]%Z SUncleared
+                   [mkPost [70%Z] PReal (Some (mkAmt 10 2%Z false (Some [36%Z]))) None None false false false;
+                    mkPost [67%Z] PReal (Some (mkAmt (-10) 2%Z false (Some [36%Z]))) None None false false false]).
+  eexists. exists r, t. eexists.
+  exists (mkX (mkPost [68; 58; 76; 58; 84; 58; 70]%Z PVirtual (Some (mkAmt 10 2%Z false (Some [36%Z]))) None None false true false) SUncleared).
+  split; [reflexivity|]. split; [vm_compute; reflexivity|]. split; [vm_compute; tauto|].
+  split; [reflexivity|]. vm_compute. intros [H|[]]. discriminate H.
+Qed.
+Print Assumptions generated_posting_has_line_account_refuted.
